@@ -480,6 +480,10 @@ func runC08(w *World, r *Report) {
 				}
 			}
 		})
+		// … and that select is the ONLY way an item gets onto the channel: no plain `items <- x` anywhere in the package
+		// (a plain send cannot be woken by closeRecv: a sender holding an error item when the reader goes away stays blocked,
+		// and a forwarding goroutine blocked there never runs its deferred close of the source)
+		plainSendChecks(w, r, "C08.send-selects-closed")
 		r.Check(block != nil, "C08.send-selects-closed", "send: blocking select {closed, items<-}", send.Pos(), "both cases offered", "no blocking select with the send case")
 		good := poll != nil && block != nil && instrDominates(poll, block)
 		r.Check(good, "C08.send-selects-closed", "send: closed has priority over a buffered send", send.Pos(), "a non-blocking poll of closed dominates the blocking select", "without the priority poll a send into a closed stream with free buffer space succeeds at random: the writer is not told on its next send")
@@ -851,6 +855,8 @@ func runC19(w *World, r *Report) {
 	if n := streamBranchConditionsClose(w, r, "C19.branch-conditions-close"); n < 3 {
 		r.Fail("C19.branch-conditions-close", "stream branch conditions in flow/", w.Fn("compose", "NewStreamGraphBranch").Pos(), fmt.Sprintf("%d condition literals found (floor 3)", n))
 	}
+	r.Rule("C19.senders-wakeable", "every send of an item onto a stream's channel is a select that also watches the reader's close (no plain `items <- x`): a blocked sender is released when the reader goes away (shared with C08.send-selects-closed)", 1)
+	plainSendChecks(w, r, "C19.senders-wakeable")
 	r.Rule("C19.drain-closes", "concatStreamReader defers sr.Close() first", 1)
 	{
 		csr := w.Fn("compose", "concatStreamReader")
@@ -1431,5 +1437,24 @@ func syncFillBounded(w *World, r *Report, rule string) {
 	}
 	if n == 0 {
 		r.Fail(rule, "synchronously filled streams in package schema", ns.Pos(), "no newStream result that is filled in a loop by its creator found (MergeStreamReaders' array part expected)")
+	}
+}
+
+// plainSendChecks: shared by C08.send-selects-closed and C19.senders-wakeable.
+func plainSendChecks(w *World, r *Report, rule string) {
+	fItems := w.Field("schema", "stream", "items")
+	n := 0
+	for _, fn := range w.RepoFuncs("schema") {
+		instrs(fn, func(in ssa.Instruction) {
+			sd, ok := in.(*ssa.Send)
+			if !ok || !isLoadOfField(sd.Chan, fItems) {
+				return
+			}
+			n++
+			r.Fail(rule, fmt.Sprintf("%s sends on stream.items outside a select", w.fname(origin(fn))), sd.Pos(), "a plain channel send on the item channel blocks until a receiver takes the item and is not woken when the reader closes: the sender (a user's StreamWriter.Send, or a forwarding goroutine feeding a merged reader) stays blocked for ever once the reader has gone, and with it the producer behind a blocked forwarder")
+		})
+	}
+	if n == 0 {
+		r.OK(rule, "no plain send on stream.items in package schema", w.Fn("schema", "stream.send").Pos(), "every item goes through send's select")
 	}
 }
